@@ -662,6 +662,8 @@ def make_iter(interp, v):
             return IterV("slice", v)
         if isinstance(tgt, Ptr):
             return make_iter(interp, tgt)
+        if isinstance(tgt, IterV):
+            return IterV("byref", v)           # `&mut I`: advancing it advances the iterator it points to
         raise Inconclusive("into_iter on reference to %r" % (tgt,), interp.where())
     if isinstance(v, ListV):
         return IterV("vec", v)
@@ -673,6 +675,11 @@ def make_iter(interp, v):
 def iter_next(interp, it):
     """returns (Option value, new iterator state)"""
     k = it.kind
+    if k == "byref":
+        c, path = interp.deref(it.a)
+        x, inner = iter_next(interp, interp.read(c, path))
+        interp.write(c, path, inner)
+        return x, it
     if k == "slice":
         c, path = interp.deref(it.a)
         lst = interp.read(c, path)
@@ -750,6 +757,41 @@ def iter_next(interp, it):
             y = interp.call_value(it.b, [x.fields[0]])
             if is_some(y):
                 return y, IterV("filter_map", inner, it.b)
+    if k == "map_while":
+        if it.i:
+            return NONE, it
+        x, inner = iter_next(interp, it.a)
+        if not is_some(x):
+            return NONE, IterV("map_while", inner, it.b, 0)
+        y = interp.call_value(it.b, [x.fields[0]])
+        if is_some(y):
+            return y, IterV("map_while", inner, it.b, 0)
+        return NONE, IterV("map_while", inner, it.b, 1)
+    if k == "take_while":
+        if it.i:
+            return NONE, it
+        x, inner = iter_next(interp, it.a)
+        if not is_some(x):
+            return NONE, IterV("take_while", inner, it.b, 0)
+        keep = interp.call_value(it.b, [mkref(x.fields[0])])
+        if not isinstance(keep, bool):
+            raise Inconclusive("take_while predicate returned %r" % (keep,), interp.where())
+        if keep:
+            return x, IterV("take_while", inner, it.b, 0)
+        return NONE, IterV("take_while", inner, it.b, 1)
+    if k == "skip_while":
+        inner = it.a
+        while True:
+            x, inner = iter_next(interp, inner)
+            if not is_some(x):
+                return NONE, IterV("skip_while", inner, it.b, it.i)
+            if it.i:
+                return x, IterV("skip_while", inner, it.b, 1)
+            drop_ = interp.call_value(it.b, [mkref(x.fields[0])])
+            if not isinstance(drop_, bool):
+                raise Inconclusive("skip_while predicate returned %r" % (drop_,), interp.where())
+            if not drop_:
+                return x, IterV("skip_while", inner, it.b, 1)
     if k == "zip":
         x, a = iter_next(interp, it.a)
         if not is_some(x):
@@ -772,6 +814,7 @@ def drain(interp, it):
 
 @model("<&'a std::vec::Vec<T, A> as std::iter::IntoIterator>::into_iter", "<I as std::iter::IntoIterator>::into_iter",
        "<std::vec::Vec<T, A> as std::iter::IntoIterator>::into_iter", "core::slice::<impl [T]>::iter",
+       "core::slice::<impl [T]>::iter_mut", "std::vec::Vec::<T, A>::iter_mut",
        "std::iter::IntoIterator::into_iter", "<&'a [T] as std::iter::IntoIterator>::into_iter")
 def m_into_iter(interp, args, info):
     return make_iter(interp, args[0])
@@ -1401,10 +1444,10 @@ class FmtArgs(object):
 
 
 class FmtArg(object):
-    __slots__ = ("how", "ptr")
+    __slots__ = ("how", "ptr", "ty")
 
-    def __init__(self, how, ptr):
-        self.how, self.ptr = how, ptr
+    def __init__(self, how, ptr, ty=None):
+        self.how, self.ptr, self.ty = how, ptr, ty
 
 
 class Formatter(object):
@@ -1480,7 +1523,8 @@ def m_fmt_from_str(interp, args, info):
 
 @model("core::fmt::rt::Argument::<'_>::new_display")
 def m_new_display(interp, args, info):
-    return FmtArg("display", args[0])
+    targs = info.get("targs", [])
+    return FmtArg("display", args[0], interp.prog.ty_str(targs[0]) if targs else None)
 
 
 @model("core::fmt::rt::Argument::<'_>::new_debug")
@@ -1488,11 +1532,14 @@ def m_new_debug(interp, args, info):
     return FmtArg("debug", args[0])
 
 
-def display_value(interp, fptr, v):
+def display_value(interp, fptr, v, ty=None):
     fm = interp.load(fptr)
     v = interp.strip(v)
     if isinstance(v, Tok):
         fm.out.append(("tok", v))
+        return
+    if ty is not None and ty.lstrip("&") == "char" and isinstance(v, int) and not isinstance(v, bool):
+        fm.out.append(("lit", chr(v)))
         return
     if isinstance(v, bool):
         fm.out.append(("lit", "true" if v else "false"))
@@ -1525,7 +1572,7 @@ def m_write_fmt(interp, args, info):
                 raise Inconclusive("format placeholder with options", interp.where())
             if a.how != "display":
                 raise Inconclusive("non-Display placeholder", interp.where())
-            display_value(interp, args[0], a.ptr)
+            display_value(interp, args[0], a.ptr, a.ty)
     return ok(UNIT)
 
 
@@ -1600,7 +1647,10 @@ def m_str_len(interp, args, info):
 
 @model("core::str::<impl str>::parse")
 def m_str_parse(interp, args, info):
-    return interp.policy.str_parse(interp, args, info)
+    hook = getattr(interp.policy, "str_parse", None)
+    if hook is None:
+        raise Inconclusive("str::parse is not modelled in this analysis", interp.where())
+    return hook(interp, args, info)
 
 
 @model("miette::LabeledSpan::new_with_span")
@@ -1884,3 +1934,214 @@ def m_array_map(interp, args, info):
     if isinstance(a, tuple):
         return tuple(interp.call_value(args[1], [x]) for x in a)
     raise Inconclusive("array map on %r" % (a,), interp.where())
+
+
+@model("std::iter::Iterator::map_while")
+def m_iter_map_while(interp, args, info):
+    return IterV("map_while", make_iter(interp, args[0]), args[1], 0)
+
+
+@model("std::iter::Iterator::take_while")
+def m_iter_take_while(interp, args, info):
+    return IterV("take_while", make_iter(interp, args[0]), args[1], 0)
+
+
+@model("std::iter::Iterator::skip_while")
+def m_iter_skip_while(interp, args, info):
+    return IterV("skip_while", make_iter(interp, args[0]), args[1], 0)
+
+
+@model("std::iter::Iterator::fuse", "std::iter::Iterator::by_ref_value", "std::iter::Iterator::peekable_not_peeked")
+def m_iter_fuse(interp, args, info):
+    # every iterator of this model keeps answering None after its first None
+    return make_iter(interp, args[0])
+
+
+@model("<std::vec::Vec<T> as std::iter::FromIterator<T>>::from_iter", "std::iter::FromIterator::from_iter",
+       "<std::vec::Vec<T, A> as std::iter::FromIterator<T>>::from_iter")
+def m_vec_from_iter(interp, args, info):
+    return ListV(drain(interp, make_iter(interp, args[0])))
+
+
+@model("std::array::<impl std::iter::IntoIterator for [T; N]>::into_iter", "core::array::<impl std::iter::IntoIterator for [T; N]>::into_iter")
+def m_array_into_iter(interp, args, info):
+    a = args[0]
+    if isinstance(a, tuple):
+        a = ListV(list(a))
+    return make_iter(interp, a)
+
+
+@model("core::str::<impl str>::strip_prefix")
+def m_str_strip_prefix(interp, args, info):
+    s_ = interp.strip(args[0])
+    pat = args[1]
+    if isinstance(s_, StrV) and isinstance(pat, (int, StrV)) and not isinstance(pat, bool):
+        needle = chr(pat) if isinstance(pat, int) else pat.s
+        return some(StrV(s_.s[len(needle):])) if s_.s.startswith(needle) else NONE
+    hook = getattr(interp.policy, "stream_strip_prefix", None)
+    if hook is not None and isinstance(s_, Tok) and s_.kind == "T":
+        return hook(interp, s_, pat, info)
+    if isinstance(s_, Tok) and s_.kind == "T":
+        # opaque text: whether it starts with the pattern is not determined — both outcomes; the remainder is a
+        # different text (a sub-slice that starts later)
+        interp.events.append(("text-test", s_.name))
+        if interp.ctx.choose("text-test", 2) == 0:
+            return some(Tok("T", "stripped(%s)" % s_.name, s_.val, dom=s_.dom))
+        return NONE
+    raise Inconclusive("strip_prefix on %r" % (s_,), interp.where())
+
+
+@model("core::slice::<impl [T]>::split_first")
+def m_slice_split_first(interp, args, info):
+    c, path, n = _elem_ptr(interp, args[0], 0)
+    if not n:
+        return NONE
+    v = interp.read(c, path)
+    return some((Ptr(c, path + (("i", 0),)), Ptr(Cell(ListV(tuple(v.items[1:]))))))
+
+
+@model("core::slice::<impl [T]>::split_last")
+def m_slice_split_last(interp, args, info):
+    c, path, n = _elem_ptr(interp, args[0], 0)
+    if not n:
+        return NONE
+    v = interp.read(c, path)
+    return some((Ptr(c, path + (("i", n - 1),)), Ptr(Cell(ListV(tuple(v.items[:-1]))))))
+
+
+@model("core::slice::<impl [T]>::split_at")
+def m_slice_split_at(interp, args, info):
+    c, path, n = _elem_ptr(interp, args[0], 0)
+    k = args[1]
+    if not isinstance(k, int) or isinstance(k, bool):
+        raise Inconclusive("split_at(%r)" % (k,), interp.where())
+    if k > n:
+        raise Panic("index", interp.where(), "split_at %d of %d" % (k, n))
+    v = interp.read(c, path)
+    return (Ptr(Cell(ListV(tuple(v.items[:k])))), Ptr(Cell(ListV(tuple(v.items[k:])))))
+
+
+@model("core::str::<impl str>::as_bytes", "std::string::String::as_bytes")
+def m_str_as_bytes(interp, args, info):
+    v = interp.strip(args[0])
+    if isinstance(v, StrV):
+        return Ptr(Cell(ListV(list(v.s.encode("utf-8")))))
+    if isinstance(v, Tok) and v.kind == "T":
+        # the byte view of an opaque text: the same opaque text (byte order of UTF-8 = string order, same equality)
+        return args[0]
+    raise Inconclusive("as_bytes on %r" % (v,), interp.where())
+
+
+@model("core::str::<impl str>::bytes")
+def m_str_bytes(interp, args, info):
+    v = interp.strip(args[0])
+    if isinstance(v, StrV):
+        return IterV("vec", ListV(list(v.s.encode("utf-8"))))
+    raise Inconclusive("bytes on %r" % (v,), interp.where())
+
+
+@model("core::str::<impl str>::chars")
+def m_str_chars(interp, args, info):
+    v = interp.strip(args[0])
+    if isinstance(v, StrV):
+        return IterV("vec", ListV([ord(c) for c in v.s]))
+    raise Inconclusive("chars on %r" % (v,), interp.where())
+
+
+def concrete_u64_parse(interp, args, info):
+    """str::parse::<u64> on a concrete text, as documented: optional `+`, decimal digits, no overflow"""
+    import re as _re
+    s_ = interp.strip(args[0])
+    tys = [interp.prog.ty_str(t) for t in info.get("targs", [])]
+    if not isinstance(s_, StrV) or "u64" not in tys:
+        raise Inconclusive("str::parse::<%s> on %r" % (tys, s_), interp.where())
+    if _re.fullmatch(r"\+?[0-9]+", s_.s) and int(s_.s) < (1 << 64):
+        return ok(int(s_.s))
+    return err(Tok("O", "parse_int_error"))
+
+
+@model("core::slice::<impl [T]>::last_mut")
+def m_slice_last_mut(interp, args, info):
+    c, path, n = _elem_ptr(interp, args[0], 0)
+    return some(Ptr(c, path + (("i", n - 1),))) if n else NONE
+
+
+@model("core::slice::<impl [T]>::first_mut")
+def m_slice_first_mut(interp, args, info):
+    c, path, n = _elem_ptr(interp, args[0], 0)
+    return some(Ptr(c, path + (("i", 0),))) if n else NONE
+
+
+@model("core::slice::<impl [T]>::get_mut")
+def m_slice_get_mut(interp, args, info):
+    c, path, n = _elem_ptr(interp, args[0], 0)
+    i = args[1]
+    if not isinstance(i, int) or isinstance(i, bool):
+        raise Inconclusive("slice get_mut(%r)" % (i,), interp.where())
+    return some(Ptr(c, path + (("i", i),))) if 0 <= i < n else NONE
+
+
+@model("std::slice::<impl [T]>::to_vec", "alloc::slice::<impl [T]>::to_vec")
+def m_slice_to_vec(interp, args, info):
+    c, path, n = _elem_ptr(interp, args[0], 0)
+    v = interp.read(c, path)
+    return ListV([clone_value(interp, x) for x in v.items])
+
+
+@model("std::iter::Iterator::by_ref")
+def m_iter_by_ref(interp, args, info):
+    return args[0]
+
+
+@model("core::slice::<impl [T]>::contains")
+def m_slice_contains(interp, args, info):
+    c, path, n = _elem_ptr(interp, args[0], 0)
+    v = interp.read(c, path)
+    needle = interp.load(args[1]) if isinstance(args[1], Ptr) else args[1]
+    for x in v.items:
+        if eq_values(interp, x, needle):
+            return True
+    return False
+
+
+@model("std::char::convert::<impl std::convert::TryFrom<char> for u8>::try_from",
+       "core::char::convert::<impl std::convert::TryFrom<char> for u8>::try_from")
+def m_u8_try_from_char(interp, args, info):
+    v = interp.strip(args[0])
+    if isinstance(v, Tok) and v.kind == "C":
+        v = v.val
+    if not isinstance(v, int) or isinstance(v, bool):
+        raise Inconclusive("u8::try_from(%r)" % (v,), interp.where())
+    return ok(v) if v < 256 else err(Tok("O", "char-try-from-error"))
+
+
+@model("std::result::Result::<T, E>::map_or")
+def m_res_map_or(interp, args, info):
+    return interp.call_value(args[2], [args[0].fields[0]]) if _is_ok(args[0]) else args[1]
+
+
+@model("std::result::Result::<T, E>::map_or_else")
+def m_res_map_or_else(interp, args, info):
+    if _is_ok(args[0]):
+        return interp.call_value(args[2], [args[0].fields[0]])
+    return interp.call_value(args[1], [args[0].fields[0]])
+
+
+@model("std::result::Result::<T, E>::is_ok_and")
+def m_res_is_ok_and(interp, args, info):
+    return bool(_is_ok(args[0]) and interp.call_value(args[1], [args[0].fields[0]]))
+
+
+@model("std::result::Result::<T, E>::unwrap_or")
+def m_res_unwrap_or(interp, args, info):
+    return args[0].fields[0] if _is_ok(args[0]) else args[1]
+
+
+@model("std::result::Result::<T, E>::unwrap_or_default")
+def m_res_unwrap_or_default(interp, args, info):
+    if _is_ok(args[0]):
+        return args[0].fields[0]
+    targs = info.get("targs", [])
+    if targs:
+        return default_of_type(interp, targs[0])
+    raise Inconclusive("unwrap_or_default on Err", interp.where())
